@@ -57,8 +57,7 @@ IsValidMatrix(P, m) ==
 (***************************************************************************)
 (* What the per-pair limits may be (they are logged, not modelled): 0 for  *)
 (* excluded pairs and pairs with an absent end; at most 1 when either end  *)
-(* forbids parallel connections; never above the largest finite degree of  *)
-(* either end; at least 1 (2 if both ends are open-ended and allow         *)
+(* forbids parallel connections; at least 1 (2 if both ends are open-ended and allow         *)
 (* repetition) for a present, non-excluded pair whose ends accept a        *)
 (* connection at all.                                                      *)
 (***************************************************************************)
@@ -72,7 +71,6 @@ CapsOK(P, excl) ==
          IN /\ c >= 0
             /\ ((<<i, j>> \in excl \/ Absent(P.so, i) \/ Absent(P.to, j)) => c = 0)
             /\ ((~P.src[i].rep \/ ~P.tgt[j].rep) => c <= 1)
-            /\ (ms >= 0 => c <= ms) /\ (mt >= 0 => c <= mt)
             /\ ((<<i, j>> \notin excl /\ ~Absent(P.so, i) /\ ~Absent(P.to, j) /\ ms # 0 /\ mt # 0) => c >= 1)
             /\ (P.mcp > 0 => c <= P.mcp)
             /\ ((P.mcp = 0 /\ <<i, j>> \notin excl /\ ~Absent(P.so, i) /\ ~Absent(P.to, j) /\ P.src[i].rep /\ P.tgt[j].rep /\ ms < 0 /\ mt < 0) => c >= 2)
